@@ -339,4 +339,11 @@ example : toQuery sampleLink = b ("xt=urn:btih:ababababababababababababababababa
 example : indexSet [4, 6, 6, 2] = [2, 4, 6] := by decide +kernel
 example : trackers (some (b "a")) [[b "b", b "a"], [b "c", b "b"]] = [b "a", b "b", b "c"] := by decide +kernel
 
+/-! ## tie to the source: the literal set of `push_value` -/
+
+/-- the bytes the source copies literally (extracted from `MagnetLink::push_value` on every run) are
+exactly the model's — in particular none of `% & + #`, space or a control byte is among them -/
+theorem keep_set_is_the_sources : ∀ n, n < 256 → (List.contains Consts.magnetKeep n) = Magnet.keepLiteralN n := by
+  decide +kernel
+
 end Imdlv.C10
